@@ -34,6 +34,9 @@ enum Op {
     /// 48K only: a minimal SZX snapshot (header + SPCR chunk with this ch7ffd byte) is loaded; the 48K has no
     /// paging to restore — its map and its deafness to paging writes stay as they are
     Szx(u8),
+    /// the host supplies a new ROM set (Emulator::load_rom) in the middle of the history: the contents of the
+    /// ROM pages change, the map (which page is seen below 0x4000), the latch and the lock do not
+    Rom(usize, usize),
 }
 
 impl Op {
@@ -43,6 +46,7 @@ impl Op {
             Op::Wr(a, v) => format!("wr {:04x} {:02x}", a, v),
             Op::Rd(a) => format!("rd {:04x}", a),
             Op::Szx(v) => format!("szx {:02x}", v),
+            Op::Rom(a, b) => format!("rom {:x} {:x}", a, b),
         }
     }
     fn parse(s: &str) -> Option<Op> {
@@ -53,6 +57,7 @@ impl Op {
             ["wr", a, v] => Some(Op::Wr(h(a)?, h(v)? as u8)),
             ["rd", a] => Some(Op::Rd(h(a)?)),
             ["szx", v] => Some(Op::Szx(h(v)? as u8)),
+            ["rom", a, b] => Some(Op::Rom(h(a)? as usize, h(b)? as usize)),
             _ => None,
         }
     }
@@ -63,9 +68,7 @@ struct Machine {
     m128: bool,
 }
 
-fn fresh(m128: bool, rom_seeds: Option<(usize, usize)>, lines: &mut Vec<String>) -> Machine {
-    let mut e = emu(&Cfg::new(m128));
-    lines.push(format!("new {}", if m128 { 128 } else { 48 }));
+fn supply_roms(e: &mut Emu, m128: bool, rom_seeds: Option<(usize, usize)>, lines: &mut Vec<String>) {
     if let Some((s0, s1)) = rom_seeds {
         let mut pages = vec![VAsset::new((0..16384).map(|o| rom_byte(s0, o)).collect())];
         lines.push(format!("rom 0 {:x}", s0));
@@ -81,6 +84,12 @@ fn fresh(m128: bool, rom_seeds: Option<(usize, usize)>, lines: &mut Vec<String>)
             panic!("load_rom failed on a well-formed ROM set");
         }
     }
+}
+
+fn fresh(m128: bool, rom_seeds: Option<(usize, usize)>, lines: &mut Vec<String>) -> Machine {
+    let mut e = emu(&Cfg::new(m128));
+    lines.push(format!("new {}", if m128 { 128 } else { 48 }));
+    supply_roms(&mut e, m128, rom_seeds, lines);
     Machine { e, m128 }
 }
 
@@ -117,6 +126,10 @@ fn apply(m: &mut Machine, ops: &[Op], probes: &[u16], lines: &mut Vec<String>, c
                 }
                 // the model of the 48K has nothing to do
                 lines.push("pg".into());
+            }
+            Op::Rom(a, b) => {
+                let m128 = m.m128;
+                supply_roms(&mut m.e, m128, Some((*a, *b)), lines);
             }
             Op::Rd(a) => {
                 let got = m.e.verif_read_mem(*a, 3);
@@ -268,6 +281,7 @@ fn op_class(o: &Op) -> String {
         Op::Wr(a, _) => format!("wr@{:x}", a >> 14),
         Op::Rd(a) => format!("rd@{:x}", a >> 14),
         Op::Szx(_) => "szx-load".into(),
+        Op::Rom(..) => "host-rom-set".into(),
     }
 }
 
@@ -316,6 +330,7 @@ fn random_ops(rng: &mut Rng, n: usize) -> Vec<Op> {
                 Op::Out(paging_port(rng), v)
             }
             3 if rng.chance(1, 6) => Op::Szx(rng.u8()),
+            4 if rng.chance(1, 5) => Op::Rom(rng.below(200) as usize, rng.below(200) as usize),
             3..=7 => Op::Wr(addr(rng), rng.u8() | 1),
             _ => Op::Rd(addr(rng)),
         })
@@ -327,7 +342,7 @@ pub fn run(o: &Opts) -> Report {
     rep.rule = "exhaustive part: from every one of the 64 paging states (bank 0-7 x screen x ROM x lock) every one of the \
 256 latch values is written, with marker bytes unique per RAM bank and ROM page; random part: seeded histories (<=40 ops) \
 of paging writes (canonical and partially decoded port addresses), memory writes and reads through all four windows, \
-on both machines, with host-supplied ROM sets; after every operation the paging registers and 12 probe addresses are \
+on both machines, with host-supplied ROM sets (at the start and again in the middle of a history, e.g. while ROM 1 is selected or paging is locked); after every operation the paging registers and 12 probe addresses are \
 compared; plus whole-machine lock-step runs of CPU programs made of 16-bit loads/stores/stack operations straddling the window boundaries, with the complete RAM of all banks compared afterwards. distinct/non-trivial = distinct (machine, address, non-zero value read) observations".into();
     let mut model = Model::spawn(&o.model, "C06");
 
@@ -376,6 +391,14 @@ compared; plus whole-machine lock-step runs of CPU programs made of 16-bit loads
                 report(&mut model, &mut rep, true, Some((3, 9)), &ops, f);
             }
         }
+    }
+    // 1b. a host ROM set supplied in every one of the 64 paging states: new contents, same map
+    for state in 0..64u8 {
+        let ops = vec![Op::Out(0x7FFD, state), Op::Rom(11 + state as usize, 77 + state as usize), Op::Rd(0x0000), Op::Out(0x7FFD, state ^ 0x10), Op::Rd(0x3FFF)];
+        if let Some(f) = run_case(&mut model, true, Some((3, 9)), &ops, &PROBES, Some(&mut rep)) {
+            report(&mut model, &mut rep, true, Some((3, 9)), &ops, f);
+        }
+        rep.count("exhaustive_states", "host ROM set in a paging state");
     }
     for v in 0..=255u8 {
         let ops = vec![Op::Wr(0xC000, 0x5A), Op::Out(0x7FFD, v), Op::Out(0x7FFD & 0x00FD | 0x0100, v)];
